@@ -81,10 +81,14 @@ def check_C14(run):
         td = run.sub("conc_%d" % i)
         trace = os.path.join(td, "trace.ndjson")
         env = dict(os.environ, GORACE="log_path=%s halt_on_error=0 exitcode=0" % os.path.join(td, "race"))
-        p = subprocess.run([racebin, "conc", "-corpus", corpus, "-g", str(g), "-per", str(per), "-seed", str(run.seed * 100 + i), "-out", trace],
+        # the sequential baseline and the concurrent phase run in two fresh processes
+        seqf, concf = os.path.join(td, "seq.ndjson"), os.path.join(td, "conc.ndjson")
+        p0 = subprocess.run([racebin, "conc", "-phase", "seq", "-corpus", corpus, "-out", seqf], env=env, stdout=subprocess.PIPE, stderr=subprocess.PIPE, text=True, timeout=1800)
+        p = subprocess.run([racebin, "conc", "-phase", "conc", "-corpus", corpus, "-g", str(g), "-per", str(per), "-seed", str(run.seed * 100 + i), "-out", concf],
                            env=env, stdout=subprocess.PIPE, stderr=subprocess.PIPE, text=True, timeout=1800)
-        if p.returncode != 0:
-            raise Broken("conc run failed: " + p.stderr[-800:])
+        if p.returncode != 0 or p0.returncode != 0:
+            raise Broken("conc run failed: " + (p.stderr + p0.stderr)[-800:])
+        cat_files([seqf, concf], trace)
         s = json.loads(re.search(r"SUMMARY (.*)", p.stdout).group(1))
         races = 0
         for rf in glob.glob(os.path.join(td, "race*")):
@@ -131,8 +135,12 @@ def replay_conc(run, rp):
     racebin = build_race_harness()
     td = run.sub("replay_conc")
     trace = os.path.join(td, "trace.ndjson")
-    p = subprocess.run([racebin, "conc", "-corpus", rp["corpus"], "-g", str(rp["g"]), "-per", str(rp["per"]), "-seed", str(rp["seed"]), "-out", trace],
-                       env=dict(os.environ, GORACE="halt_on_error=0 exitcode=0"), stdout=subprocess.PIPE, stderr=subprocess.PIPE, text=True, timeout=1800)
+    seqf, concf = os.path.join(td, "seq.ndjson"), os.path.join(td, "conc.ndjson")
+    e2 = dict(os.environ, GORACE="halt_on_error=0 exitcode=0")
+    subprocess.run([racebin, "conc", "-phase", "seq", "-corpus", rp["corpus"], "-out", seqf], env=e2, stdout=subprocess.PIPE, stderr=subprocess.PIPE, text=True, timeout=1800)
+    p = subprocess.run([racebin, "conc", "-phase", "conc", "-corpus", rp["corpus"], "-g", str(rp["g"]), "-per", str(rp["per"]), "-seed", str(rp["seed"]), "-out", concf],
+                       env=e2, stdout=subprocess.PIPE, stderr=subprocess.PIPE, text=True, timeout=1800)
+    cat_files([seqf, concf], trace)
     out, rc, secs = run.tlc(td, "TraceConc", TRACE_CFG, workers=1, timeout=1800)
     return "TRACE-ACCEPTED" not in out
 
